@@ -20,7 +20,7 @@ TEXTS = {
         "technique": 'Lean 4 proof over regenerated table + handler-level theorems + exhaustive differential + co-simulation',
     },
     'C07': {
-        "text": 'Kernel-checked for every consumer kind and every fault plan: a cursor moves during a delivery only if a filter excluded the event or the handler returned without error; a failing handler moves no cursor; a failing operation closes the receiver and backs off (needRole directly when the lease is gone); an event younger than the lag parks the consumer until exactly createdAt+lag and nothing runs meanwhile (lag test regenerated). Engine model = lean/WorkflowModel/Model/Engine.lean (executable, adapter-call granularity, fault plans, user-function outcomes as parameters), tied to the code by co-simulation under the gated deterministic simulator: every observation line of every explored history must be identical; guards/tables are regenerated from source (T1), call orders are tripwires (T2). ',
+        "text": 'Kernel-checked for every consumer kind and every fault plan: a cursor moves during a delivery only if a filter excluded the event or the handler returned without error; a failing handler moves no cursor; a failing operation closes the receiver and backs off (needRole directly when the lease is gone); an event younger than the lag parks the consumer until exactly createdAt+lag and nothing runs meanwhile (lag test regenerated). Connector events: the two real conversions (ConnectorEvent -> stream Event -> ConnectorEvent) are run back to back on generated events and every field compared, the timestamp as an instant (pure-connector; encoding/json is external, no model side). Engine model = lean/WorkflowModel/Model/Engine.lean (executable, adapter-call granularity, fault plans, user-function outcomes as parameters), tied to the code by co-simulation under the gated deterministic simulator: every observation line of every explored history must be identical; guards/tables are regenerated from source (T1), call orders are tripwires (T2). ',
         "note": TB,
         "technique": 'Lean 4 proof (Hoare-style frame + decision theorems over the fault-injected monad) + co-simulation with faults at every call',
     },
